@@ -17,11 +17,17 @@ def T():
         import tucan.io.molfile_writer as W
         import tucan.io.molfile_v3000_reader as R
         _loaded.update(W=W, R=R)
+    if not hasattr(_loaded["W"], "_add_v30_line") or not hasattr(_loaded["R"], "_concat_lines_with_dash"):
+        from symx.core import Unsupported
+        raise Unsupported("the private helpers _add_v30_line / _concat_lines_with_dash are not there: the kernel harness does not apply to this tree")
     return _loaded
 
 
 def warmup():
-    t = T()
+    try:
+        t = T()
+    except BaseException:
+        return
     lines = []
     t["W"]._add_v30_line(lines, "x" * 200)
     t["R"]._concat_lines_with_dash(lines + ["M  END"])
